@@ -93,7 +93,7 @@ def one(ctx, hno, tie):
     answers = {}
     for name, gap in schedules:
         w = ix.World(random.Random(seed + 1))    # same initial coordinates
-        w.setup()
+        w.setup(crowded=(seed % 5 < 2))
         lrng = random.Random(seed + 2)
         failed = []
 
